@@ -1,7 +1,7 @@
 (* C12 - non-vacuity examples and witnesses that the hypotheses of the theorems are needed. *)
 From Coq Require Import List Arith Bool ZArith NArith Lia.
 Require Import ListN Result Bytes F32 Tensor Codec.
-Require Import C12_Model C12_Tab C12_Inv C12_Reach C12_Ser.
+Require Import C12_Model C12_Tab C12_Inv C12_Reach C12_Ser C12_Progress.
 Import ListNotations.
 Open Scope nat_scope.
 
@@ -111,3 +111,14 @@ Example ex_abstracts : abstracts ex_st ex_wp.
 Proof. constructor; try reflexivity. repeat constructor. Qed.
 Example ex_serialisable : exists bs, write_pose ex_wp = Ok bs /\ bs <> [].
 Proof. destruct (write_pose ex_wp) as [bs|e] eqn:E; [|vm_compute in E; discriminate]. exists bs. split; [reflexivity|]. vm_compute in E. injection E as <-. discriminate. Qed.
+
+(* ---- progress is not vacuous: the bounding box of a 3-D pose (F11, as repaired) ---- *)
+Definition ex3_hdr : header := [ {| c_name := nA; c_points := [pa0; pa1]; c_fmt := 4 |}; {| c_name := nB; c_points := [pb0]; c_fmt := 4 |} ].
+Definition ex3_st : state := Eval vm_compute in match start_state ex3_hdr 2 1 3 3 [false; true; true;  false; false; false] with Ok s => s | Err _ => dummy end.
+Example bbox_3d_ok : Inv ex3_st /\ s_be ex3_st = Np /\ expects_ok_np ex3_st BBox = true
+                     /\ exists st', step ex3_st BBox = Ok st' /\ Inv st' /\ shape (s_mask st') = [2; 1; 4; 3].
+Proof.
+  split; [apply invb_sound; vm_compute; reflexivity|]. split; [reflexivity|]. split; [vm_compute; reflexivity|].
+  destruct (step ex3_st BBox) as [st'|e] eqn:E; [|vm_compute in E; discriminate].
+  exists st'. split; [reflexivity|]. vm_compute in E. injection E as <-. split; [apply invb_sound; vm_compute; reflexivity|reflexivity].
+Qed.
